@@ -64,6 +64,7 @@ def _logical_lines(path):
 def load(cdir):
     sp = Specs()
     for path in sorted(glob.glob(os.path.join(cdir, '*.spec'))):
+        sp.aliases = {}   # aliases are file-local
         var, insts = None, ['']
         cur = []          # list of (kind, key, inst)
         cond = None       # set of insts for which lines are kept
